@@ -76,6 +76,15 @@ def make_case(cid, rng, schema, root, n_ops, every, name_k=0):
         if every and (i % every == every - 1):
             full.append({"op": "reopen", "dir": d, "verify": True})
             marks.append({"kind": "reopen"})
+    if name_k % 4 == 1:
+        # a transient failure in the middle of the history: one crate/membership operation is first made to fail at each of its
+        # statements in turn (SQLITE_BUSY, as when another program holds the file), then succeeds; what the library shows
+        # afterwards must still be what is found after the next reopen
+        cand = [i for i, o in enumerate(full) if o.get("op") in ("add_track", "create_root_crate", "create_sub_crate", "set_name", "set_parent",
+                                                                 "remove_track_from", "clear_tracks")]
+        if cand:
+            i = cand[len(cand) // 2]
+            full[i] = {"op": "fault_sweep", "inner": full[i], "code": 5, "max_k": 60, "keep_going": True}
     full.append({"op": "reopen", "dir": d, "verify": True})
     marks.append({"kind": "reopen"})
     full.append({"op": "exists", "dir": d})
